@@ -2349,11 +2349,17 @@ def preprocess_file(
         pp_defs = {}
     if include_dirs is None:
         include_dirs = set()
+    # A set has no order of its own: search the directories in a fixed order, so
+    # that which of two headers with one name is found does not change from run
+    # to run
+    search_dirs = sorted(include_dirs)
     if file_path is not None:
-        # The directory of this file is searched for this file (and the files
-        # it includes) only: the caller's set is left as it is
+        # The directory of this file is searched first, for this file (and the
+        # files it includes) only: the caller's set is left as it is
+        own_dir = os.path.abspath(os.path.dirname(file_path))
         include_dirs = set(include_dirs)
-        include_dirs.add(os.path.abspath(os.path.dirname(file_path)))
+        include_dirs.add(own_dir)
+        search_dirs = [own_dir] + [d for d in search_dirs if d != own_dir]
     pp_skips = []
     pp_defines = []
     pp_stack = []
@@ -2506,7 +2512,7 @@ def preprocess_file(
             # Intentionally keep this as a list and not a set. There are cases
             # where projects play tricks with the include order of their headers
             # to get their codes to compile. Using a set would not permit that.
-            for include_dir in include_dirs:
+            for include_dir in search_dirs:
                 include_path_tmp = os.path.join(include_dir, include_filename)
                 if os.path.isfile(include_path_tmp):
                     include_path = os.path.abspath(include_path_tmp)
